@@ -58,8 +58,12 @@ Definition obs_state (g : gstate) : obs :=
    ("hole", flat_map (fun p => zn (length (p_hole p)) :: p_hole p) ps);
    ("ctype", map (fun p => ctype_code (p_comb p)) ps);
    ("cpower", map (fun p => match p_comb p with Some c => ci_power c | None => 0 end) ps);
+   (* with more than 12 candidate hands Go's sort is not stable: the cards of the
+      reported hand are then left to the oracle and not compared literally *)
    ("ccards", flat_map (fun p => match p_comb p with
-                                 | Some c => zn (length (ci_cards c)) :: ci_cards c
+                                 | Some c =>
+                                     if Nat.leb (length (all_combinations (st_board s) (p_hole p) (m_req m))) 12
+                                     then zn (length (ci_cards c)) :: ci_cards c else [0]
                                  | None => [0] end) ps)]
   ++ match g_result g with
      | None => [("hasres", [0])]
